@@ -27,7 +27,8 @@ def run(tier, seed, pid="C02"):
     for cfg in (["QBFTMC_sim4.cfg"] if not thorough else ["QBFTMC_sim4.cfg", "QBFTMC_sim7.cfg", "QBFTMC_sim4cmp.cfg"]):
         vlib.simulate_timeboxed(o, qc.FAMILY, "QBFTMC", cfg, 200 if thorough else 25, seed=seed, workers=8 if thorough else 4)
     if thorough:
-        for cfg in ["QBFTMC_W4rc.cfg"]:
+        for cfg in ["QBFTMC_W4rc.cfg", "QBFTMC_W4pp.cfg", "QBFTMC_W4d.cfg", "QBFTMC_W4votes.cfg", "QBFTMC_W4d_b2.cfg",
+                    "QBFTMC_W4votes_b2.cfg", "QBFTMC_W4rc_b2.cfg"]:
             r = vlib.tlc(pid, qc.FAMILY, "QBFTMC", cfg, timeout=1500)
             vlib.require_mc_ok(r, cfg)
             o.add_mc(cfg, r)
